@@ -12,10 +12,10 @@ func e2eProp(id, dir string, bounds, outside []string) *Prop {
 		ID: id, PkgDir: "interp", PkgPath: interpPath, PkgName: "interp",
 		Harness:    []string{"interp_common.go", "E2E.go"},
 		InlinePkgs: []string{"github.com/traefik/yaegi/stdlib"},
-		InitFiles:  map[string][]string{"github.com/traefik/yaegi/stdlib": {"_fmt.go", "_io.go", "_sort.go", "stdlib.go"}},
+		InitFiles:  map[string][]string{"github.com/traefik/yaegi/stdlib": {"_fmt.go", "_io.go", "_sort.go", "stdlib.go", "wrapper-composed.go"}},
 		Instrument: runidInstr, GenAST: true, E2EDir: dir, TestFiles: []string{"ast_dump_test.go.txt"},
 		Setup:     func(e *sym.Engine) { e.MaxDepth = 4000; e.MaxSteps = 20000000 },
-		Redirects: map[string]string{ip + "parse": "vmE2EParse", ip + "ast": "vmE2EAst"},
+		Redirects: map[string]string{ip + "parse": "vmE2EParse", ip + "ast": "vmE2EAst", ip + "stripReceiverFromArgs": "vmStripReceiver"},
 		Obligs: func(tier string) []Oblig {
 			var r []Oblig
 			files, _ := filepath.Glob(filepath.Join(verifDir, "harness", dir, "*.go.txt"))
